@@ -440,7 +440,16 @@ def _expand(fi: FuncInfo, caller_names: set[str], st: ast.stmt, select: Callable
                 v = n.value
                 if isinstance(v, ast.Yield) and yhook is not None:
                     var, cond, then = yhook
-                    a = ast.Assign(targets=[ast.Name(id=var, ctx=ast.Store())], value=v.value if v.value is not None else ast.Constant(value=None))
+                    tgt = ast.Name(id=var, ctx=ast.Store()) if isinstance(var, str) else clone(var)
+                    a = ast.Assign(targets=[tgt], value=v.value if v.value is not None else ast.Constant(value=None))
+                    if isinstance(tgt, ast.Name) and tgt.id == "_":
+                        a = ast.Expr(value=a.value)  # (`for _ in gen()`: the item is only evaluated)
+                    if cond is None:
+                        i = ast.If(test=ast.Constant(value=True), body=clone(list(then)), orelse=[])
+                        body_ = i.body
+                        for b_ in body_:
+                            b_._caller_stmt = True  # type: ignore[attr-defined]
+                        return [ast.fix_missing_locations(ast.copy_location(a, n))] + [ast.fix_missing_locations(ast.copy_location(b_, n)) for b_ in body_ if not isinstance(b_, ast.Pass)]
                     i = ast.If(test=clone(cond), body=clone(list(then)), orelse=[])
                     i._caller_stmt = True  # type: ignore[attr-defined]  # (its `return` is the caller's, not the helper's)
                     return [ast.fix_missing_locations(ast.copy_location(a, n)), ast.fix_missing_locations(ast.copy_location(i, n))]
@@ -742,7 +751,28 @@ class _ExprInliner(ast.NodeTransformer):
         finally:
             self.conditional -= 1
 
-    visit_ListComp = visit_SetComp = visit_DictComp = visit_GeneratorExp = visit_IfExp = visit_BoolOp = _cond  # noqa: N815
+    visit_GeneratorExp = visit_IfExp = visit_BoolOp = _cond  # noqa: N815
+
+    def _comp(self, n):
+        # an eager comprehension whose source is a generator helper: the helper's items are read as a list first
+        if not self.conditional and self.stmt is not None and isinstance(self.stmt, (ast.Expr, ast.Assign, ast.AnnAssign, ast.AugAssign, ast.Return)) and n.generators and isinstance(n.generators[0].iter, ast.Call):
+            src = n.generators[0].iter
+            g = _helper_of(self.fi, src)
+            if g is not None and is_generator(g.node) and inlinable(g.node, allow_generator=True) and self.sel(g, src, self.stmt):
+                tmp = f"_{g.name.strip('_')}_items"
+                while tmp in self.names:
+                    tmp += "_"
+                self.names.add(tmp)
+                asg = ast.Assign(targets=[ast.Name(id=tmp, ctx=ast.Store())], value=src)
+                ast.copy_location(asg, self.stmt)
+                ast.fix_missing_locations(asg)
+                asg._eager_ok = True  # type: ignore[attr-defined]
+                self.hoisted.append(asg)
+                self.changed = True
+                n.generators[0].iter = ast.copy_location(ast.Name(id=tmp, ctx=ast.Load()), src)
+        return self._cond(n)
+
+    visit_ListComp = visit_SetComp = visit_DictComp = _comp  # noqa: N815
 
     _CONSUMERS = {"list", "tuple", "sorted", "set", "frozenset", "sum", "dict"}
 
@@ -999,6 +1029,47 @@ def inline_helpers(fi: FuncInfo, select: Callable[[FuncInfo, ast.Call, ast.stmt]
                 if skip_next:
                     skip_next = False
                     continue
+                # `g = gen(..)` whose only use is as the source of a comprehension / for / consumer in the NEXT statement: generators
+                # are lazy, so nothing happens before that use - read the call there
+                if isinstance(st, ast.Assign) and len(st.targets) == 1 and isinstance(st.targets[0], ast.Name) and isinstance(st.value, ast.Call) and idx + 1 < len(stmts):
+                    gh0 = _helper_of(view, st.value)
+                    if gh0 is not None and is_generator(gh0.node) and sel(gh0, st.value, st):
+                        gname = st.targets[0].id
+                        uses = [n for n in ast.walk(node) if isinstance(n, ast.Name) and n.id == gname]
+                        nxt_uses = [n for n in ast.walk(stmts[idx + 1]) if isinstance(n, ast.Name) and n.id == gname and isinstance(n.ctx, ast.Load)]
+                        if len(uses) == 2 and len(nxt_uses) == 1:
+                            class Sub(ast.NodeTransformer):
+                                def visit_Name(self, n: ast.Name):  # noqa: N802
+                                    return ast.copy_location(st.value, n) if n.id == gname and isinstance(n.ctx, ast.Load) else n
+                            stmts[idx + 1] = Sub().visit(stmts[idx + 1])
+                            changed = True
+                            continue
+                # `for t in gen(..): BODY` over a generator helper: the helper's own loop, with `t = <yielded>; BODY` where it yields
+                if isinstance(st, ast.For) and not st.orelse and isinstance(st.iter, ast.Call) and isinstance(st.target, (ast.Name, ast.Tuple)):
+                    ghf = _helper_of(view, st.iter)
+                    def _own_jumps(body) -> bool:
+                        def w(n) -> bool:
+                            if isinstance(n, (ast.Break, ast.Continue)):
+                                return True
+                            if isinstance(n, (ast.For, ast.While, ast.FunctionDef, ast.AsyncFunctionDef, ast.Lambda, ast.ClassDef)):
+                                return False
+                            return any(w(c) for c in ast.iter_child_nodes(n))
+                        return any(w(x) for x in body)
+                    if ghf is not None and is_generator(ghf.node) and inlinable(ghf.node, allow_generator=True) and sel(ghf, st.iter, st) and not _own_jumps(st.body):
+                        tmp = f"_{ghf.name.strip('_')}_loop"
+                        while tmp in names:
+                            tmp += "_"
+                        names.add(tmp)
+                        hst = ast.Assign(targets=[ast.Name(id=tmp, ctx=ast.Store())], value=st.iter)
+                        ast.fix_missing_locations(ast.copy_location(hst, st))
+                        hst._eager_ok = True  # type: ignore[attr-defined]
+                        hst._yield_body = (st.target, None, st.body)  # type: ignore[attr-defined]
+                        exp_f = _expand(view, names, hst, lambda h, c, s: sel(h, c, s))
+                        if exp_f is not None:
+                            inlined.append(ghf.qualname)
+                            changed = True
+                            out.extend(exp_f)
+                            continue
                 # `x = h(a) if c else d` with a selected helper in a branch: the same thing as an if/else statement
                 if isinstance(st, ast.Assign) and isinstance(st.value, ast.IfExp) and any(isinstance(b, ast.Call) and (lambda hh: hh is not None and sel(hh, b, st))(_helper_of(view, b)) for b in (st.value.body, st.value.orelse)):
                     ife = st.value
